@@ -19,7 +19,7 @@ sys.path.insert(0, HERE)
 from mutants import MUTANTS  # list of dicts: name, prop, file, old, new, [expect], [count]
 
 
-def run_one(m, thorough=False, keep=False):
+def run_one(m, thorough=False, keep=False, replay=False):
     name = m["name"]
     root = os.path.join(SCRATCH, name)
     shutil.rmtree(root, ignore_errors=True)
@@ -50,6 +50,11 @@ def run_one(m, thorough=False, keep=False):
             res[tier] = {"exit": c.returncode, "s": round(time.time() - t0, 1),
                          "lines": [l for l in c.stdout.splitlines() if l.startswith(("VIOLATION", "  sig=", "INCONCLUSIVE", "KNOWN"))][:4]}
             if c.returncode == 1:
+                # the witness must replay: ./check <prop> --replay <file> has to report the violation again
+                rp = [l.split("replay=")[1].strip() for l in c.stdout.splitlines() if l.startswith("VIOLATION") and "replay=" in l]
+                if rp and replay:
+                    r2 = subprocess.run([os.path.join(VERIF, "check"), m["prop"], "--replay", rp[0]], cwd=VERIF, env=env, capture_output=True, text=True)
+                    res["replay_exit"] = r2.returncode
                 break
         caught = any(res.get(t, {}).get("exit") == 1 for t in tiers)
         res["status"] = "caught" if caught else "MISSED"
@@ -62,7 +67,7 @@ def run_one(m, thorough=False, keep=False):
 def main():
     args = sys.argv[1:]
     j = 3
-    thorough = keep = False
+    thorough = keep = replay = False
     sel = []
     while args:
         a = args.pop(0)
@@ -72,13 +77,15 @@ def main():
             thorough = True
         elif a == "--keep":
             keep = True
+        elif a == "--replay":
+            replay = True
         else:
             sel.append(a)
     ms = [m for m in MUTANTS if not sel or any(s in m["name"] or s == m["prop"] for s in sel)]
     os.makedirs(SCRATCH, exist_ok=True)
     results = []
     with cf.ThreadPoolExecutor(max_workers=j) as ex:
-        for r in ex.map(lambda m: run_one(m, thorough, keep), ms):
+        for r in ex.map(lambda m: run_one(m, thorough, keep, replay), ms):
             results.append(r)
             ok = (r["status"] == r["expect"]) or (r["expect"] == "equivalent" and r["status"] == "MISSED")
             sig = ""
@@ -87,8 +94,11 @@ def main():
                     if l.startswith("  sig="):
                         sig = l.split()[0]
                         break
-            print("%-4s %-40s suite=%-5s %-10s %s %s %s" % (r["prop"], r["name"], r.get("suite", "?"), r["status"],
-                  "" if ok else "<== UNEXPECTED", sig, r.get("quick", {}).get("s", "")), flush=True)
+            rep = ""
+            if "replay_exit" in r:
+                rep = " replay=ok" if r["replay_exit"] == 1 else " REPLAY-DID-NOT-REPRODUCE(exit %d)" % r["replay_exit"]
+            print("%-4s %-40s suite=%-5s %-10s %s %s %s%s" % (r["prop"], r["name"], r.get("suite", "?"), r["status"],
+                  "" if ok else "<== UNEXPECTED", sig, r.get("quick", {}).get("s", ""), rep), flush=True)
             if r["status"] not in ("caught",) and not ok:
                 for t in ("quick", "thorough"):
                     for l in r.get(t, {}).get("lines", []):
